@@ -404,15 +404,42 @@ def c12():
         p.cases.append({"page": ck.rng.choice([3, 8, 1000]), "codec": CODECS[b % 3], "poff": 0, "ops": ops_of("a" * n + "w", recs)})
         ck.add("evaluations")
         distinct.add(("rand", b))
+    # several batches per writer (statistics must not leak from one row group's pages into the next) ...
+    for pi, pat in enumerate(pats):
+        if len(pat) < 2:
+            continue
+        poff = poffs[pi % len(poffs)]
+        recs = []
+        for e in pat:
+            t = max(e, 0)
+            opt = [] if e < 0 else [t]
+            recs.append([t] * 7 + [opt] * 8 + [opt] * 4)
+        hist = "aw" * len(recs) if pi % 2 else "a" + "w" + "a" * (len(recs) - 1) + "w"
+        p.cases.append({"page": 1 + pi % 2, "codec": CODECS[pi % 3], "poff": poff, "ops": ops_of(hist, recs)})
+        ck.add("evaluations")
+        distinct.add(("batches", tuple(pat), poff))
+    # ... and nested columns (definition depth >= 2, repeated groups): the schemas of F with TLC-exported record structures
+    nested = build_programs(fixed_programs(["Document", "Person", "Deep5", "BoolHeavy", "SameNames"]))
+    nested = usable(nested)
+    load_schemas(nested)
+    nrecs = export_records([(x.key, x.schema) for x in nested], 2, 24 if q else 120, ck.seed)
+    for x in nested:
+        x.cases = layout_cases(x, nrecs[x.key]["recs"], ck.seed)
+        for c in x.cases:
+            ck.add("evaluations")
+            distinct.add((x.key, c["page"], c["codec"]))
+    run_programs(nested, "c12n", timeout=1800)
     ck.cov["distinct_nontrivial"] = len(distinct)
     ck.cov["rule"] = ("pages whose entries follow every pattern over {null, rank 0..2} of length <= %d (TLC ExportPat, %d patterns), concretised "
                       "for 7 required, 8 optional and 4 repeated columns of every supported type from %d slices of the adversarial value pools "
                       "(extremes, +-0, +-Inf, NaNs, '', the string '__#NIL#__', byte strings differing in a high byte), each as one page, as pages "
-                      "of 2 and as one list; plus seeded random pages of 5-40 records; non-trivial = the pattern has at least two different entries; "
+                      "of 2, as one list and spread over several Write batches; the nested schemas of F (definition depth >= 2, repeated groups) with "
+                      "TLC-exported record structures in four layouts; plus seeded random pages of 5-40 records; non-trivial = the pattern has at least two different entries; "
                       "distinct by (pattern, pool slice)" % (3 if q else 4, len(pats), len(poffs)))
     ck.cov["exhaustive"] = False
     run_programs([p], "c12", timeout=1800)
     ck.sample({"pattern": pats[len(pats) // 2], "poff": poffs[0], "meaning": "-1 = null, t = pool value number t+poff of the column's type"})
+    judge_programs(ck, nested, ["C12", "HARNESS"], "c12n", describe=history_key_cfg)
     judge_programs(ck, [p], ["C12", "HARNESS"], "c12", describe=lambda pr, c: "%s|poff=%d|%s" % (pr.key, c["poff"], json.dumps([o.get("rec") for o in c["ops"] if o["op"] == "add"])[:300]))
     ck.assumptions += ["the order of each column type (signed, unsigned, IEEE with NaN excluded, bytewise) is computed by ~40 lines of Go in the driver "
                        "(statsObs/less); TLC receives ranks", "an absent null_count/min/max is never wrong"]
@@ -1063,7 +1090,8 @@ def c04():
 
 
 def features_for(col):
-    fs = ["dict", "index-before", "v2", "codec-lzo", "codec-brotli", "codec-lz4", "codec-zstd", "codec-lz4raw"]
+    fs = ["dict", "index-before", "v2", "type-v2-with-dph", "type-index-with-dph", "type-dict-with-dph",
+          "codec-lzo", "codec-brotli", "codec-lz4", "codec-zstd", "codec-lz4raw"]
     if col["gotype"] == "bool":
         fs.append("enc-rle-bool")
     if col["gotype"] in ("int32", "int64", "uint32", "uint64"):
@@ -1109,7 +1137,7 @@ def c18():
     ck.cov["distinct_nontrivial"] = len(distinct)
     ck.cov["rule"] = ("otherwise valid two-row-group, two-pages-per-chunk files of the schemas of F in which exactly one chunk (every column x both row groups x "
                       "both page positions) uses one unsupported feature applicable to that column: dictionary page + dictionary-encoded data pages, an index "
-                      "page, DATA_PAGE_V2, value encodings RLE (bool) / DELTA_BINARY_PACKED (ints) / DELTA_LENGTH_BYTE_ARRAY (strings), BIT_PACKED levels, "
+                      "page, DATA_PAGE_V2, pages typed v2/index/dictionary that still carry a data_page_header struct, value encodings RLE (bool) / DELTA_BINARY_PACKED (ints) / DELTA_LENGTH_BYTE_ARRAY (strings), BIT_PACKED levels, "
                       "codecs LZO/BROTLI/LZ4/ZSTD/LZ4_RAW (genuinely encoded content except LZO/BROTLI); distinct by (schema, column, feature, row group, page)")
     ck.cov["exhaustive"] = not q
     run_programs(ok, "c18", timeout=1800)
@@ -1327,6 +1355,19 @@ def c13():
                       "deliberately dirtied buffer pools; every sink call of every instance is compared with the same call of its solo run; non-trivial = at "
                       "least one context switch; plus a free-running parallel stress under the race detector" % (3 if q else 4))
     ck.cov["exhaustive"] = bool(q and len(scheds2) <= 400)
+    # reference outputs: every instance alone, in a separate fresh process per program (nothing but earlier solo runs of the
+    # same program has happened there); the replay process below is compared with these, so that state left behind by
+    # OTHER tables, codecs or instances earlier in the replay process shows
+    run_programs(ok, "c13base", timeout=2400, env_extra={"VERIF_GOMAXPROCS": "1", "VERIF_SCHED_PHASE": "baseline"}, drop=False)
+    for p in ok:
+        k = -1
+        for e in p.events:
+            if e.get("ev") == "Reset":
+                k += 1
+            elif e.get("ev") == "Baseline" and 0 <= k < len(p.cases):
+                p.cases[k]["sched"]["baseline"] = e["digests"]
+        if any("baseline" not in c["sched"] for c in p.cases):
+            raise HarnessError("baseline process of %s did not cover every case" % p.key)
     run_programs(ok, "c13", timeout=2400, env_extra={"VERIF_GOMAXPROCS": "1"})
     sw = sum(e.get("switches", 0) for p in ok for e in p.events if e.get("ev") == "Sched")
     ck.cov["context_switches_replayed"] = sw
